@@ -1,0 +1,4 @@
+// Package verifhook provides named scheduling points used only by
+// verification builds (go build tag "verif"). Without the tag every
+// call is an empty function and has no effect on behaviour.
+package verifhook
